@@ -25,6 +25,9 @@ pub const META: PropMeta = PropMeta {
 pub struct DedupCase<'a> {
     pub reg: &'a PortableRegistry,
     pub noncf: &'a BTreeSet<u32>,
+    /// instantiations of definitions that use a parameter under a transparent wrapper (`Box<T>`):
+    /// the statement's "stay together" clause and, with it, "same-shaped" do not cover them
+    pub wrappers: &'a BTreeSet<u32>,
     /// id -> source definition index (instantiations of user definitions), when known
     pub inst_of: Option<&'a BTreeMap<u32, usize>>,
     pub label: String,
@@ -37,7 +40,7 @@ fn last(p: &[String]) -> &str {
 
 pub fn judge(ctx: &mut Ctx, c: &DedupCase) -> bool {
     let r = c.reg;
-    let replay = || json!({"kind": "registry", "registry": reg::to_json(r), "noncf": c.noncf, "label": c.label, "source": c.source});
+    let replay = || json!({"kind": "registry", "registry": reg::to_json(r), "noncf": c.noncf, "wrappers": c.wrappers, "label": c.label, "source": c.source});
     let fams = reg::families(r);
     let has_family = fams.values().any(|v| v.len() >= 2);
     let mut r1 = r.clone();
@@ -81,6 +84,7 @@ pub fn judge(ctx: &mut Ctx, c: &DedupCase) -> bool {
     // 2. minimality + 6. naming, per original family
     let tainted = reg::tainted_by_coincidence(r, c.noncf);
     let coincidence_below = |ids: &[u32]| -> bool { reg::coincidence_involved(r, ids, &tainted) };
+    let wrapper_below = |ids: &[u32]| -> bool { reg::reachable(r, ids, true, true).iter().any(|i| c.wrappers.contains(i)) };
     for (path, ids) in &fams {
         let any_renamed = ids.iter().any(|i| renamed.contains_key(i));
         if !any_renamed {
@@ -96,6 +100,13 @@ pub fn judge(ctx: &mut Ctx, c: &DedupCase) -> bool {
             continue;
         }
         let classes = regeq::classes(r, ids);
+        if classes.len() < 2 && wrapper_below(ids) {
+            // `Node<T>{ value: Box<T> }`: the recorded type name is `Box<T>`, the parameter cannot be
+            // recognised, the instantiations are different shapes for the generator - outside the
+            // statement's "stay together" clause
+            ctx.count("renamed_wrapper_families_not_judged", 1);
+            continue;
+        }
         if classes.len() < 2 {
             let tag = if coincidence_below(ids) { ":coincidence" } else { "" };
             ctx.violation(
@@ -183,7 +194,7 @@ pub fn judge(ctx: &mut Ctx, c: &DedupCase) -> bool {
         for (d, ids) in by_def {
             // the clause speaks about coincidence-free generic definitions: every instantiation
             // present must be coincidence-free, with no coincidence below it either
-            if ids.len() < 2 || coincidence_below(&ids) {
+            if ids.len() < 2 || coincidence_below(&ids) || wrapper_below(&ids) {
                 continue;
             }
             let cf: Vec<u32> = ids.clone();
@@ -231,11 +242,11 @@ pub fn judge(ctx: &mut Ctx, c: &DedupCase) -> bool {
 
 fn sim_dedup(ctx: &mut Ctx, prog: &Program, label: String) {
     let out = sim::simulate(prog);
-    let cf = sim::cf_source(prog, &out);
-    let noncf: BTreeSet<u32> = cf.iter().filter(|(_, r)| r.is_some()).map(|(i, _)| *i).collect();
+    let noncf: BTreeSet<u32> = sim::coincidences(prog, &out);
+    let wrappers: BTreeSet<u32> = sim::wrapper_insts(prog, &out);
     let inst_of: BTreeMap<u32, usize> = out.def_insts.iter().map(|(i, (d, _))| (*i, *d)).collect();
     let src = prog.render_source("TypeInfo");
-    let c = DedupCase { reg: &out.registry, noncf: &noncf, inst_of: Some(&inst_of), label: label.clone(), source: Some(src.clone()) };
+    let c = DedupCase { reg: &out.registry, noncf: &noncf, wrappers: &wrappers, inst_of: Some(&inst_of), label: label.clone(), source: Some(src.clone()) };
     ctx.begin_case(&label);
     let nt = judge(ctx, &c);
     ctx.case(reg::fingerprint(&out.registry), nt);
@@ -307,10 +318,12 @@ pub fn run(ctx: &mut Ctx) {
         let merged = merge(&o1.registry, &o2.registry);
         let off = o1.registry.types.len() as u32;
         let mut noncf: BTreeSet<u32> =
-            sim::cf_source(&p1, &o1).iter().filter(|(_, r)| r.is_some()).map(|(i, _)| *i).collect();
-        noncf.extend(sim::cf_source(&p2, &o2).iter().filter(|(_, r)| r.is_some()).map(|(i, _)| *i + off));
+            sim::coincidences(&p1, &o1);
+        noncf.extend(sim::coincidences(&p2, &o2).iter().map(|i| *i + off));
+        let mut wrappers: BTreeSet<u32> = sim::wrapper_insts(&p1, &o1);
+        wrappers.extend(sim::wrapper_insts(&p2, &o2).iter().map(|i| *i + off));
         let label = format!("two-versions#{case}: {what}");
-        let c = DedupCase { reg: &merged, noncf: &noncf, inst_of: None, label: label.clone(), source: None };
+        let c = DedupCase { reg: &merged, noncf: &noncf, wrappers: &wrappers, inst_of: None, label: label.clone(), source: None };
         ctx.begin_case(&label);
         let nt = judge(ctx, &c);
         ctx.case(reg::fingerprint(&merged), nt);
@@ -319,7 +332,7 @@ pub fn run(ctx: &mut Ctx) {
         let polka = reg::load_polkadot();
         let noncf: BTreeSet<u32> =
             polka.types.iter().filter(|t| reg::non_cf_reason(&polka, t.id).is_some()).map(|t| t.id).collect();
-        let c = DedupCase { reg: &polka, noncf: &noncf, inst_of: None, label: "polkadot".into(), source: None };
+        let c = DedupCase { reg: &polka, noncf: &noncf, wrappers: &Default::default(), inst_of: None, label: "polkadot".into(), source: None };
         ctx.begin_case("polkadot");
         let nt = judge(ctx, &c);
         ctx.case(reg::fingerprint(&polka), nt);
@@ -330,7 +343,8 @@ pub fn run(ctx: &mut Ctx) {
 pub fn replay(ctx: &mut Ctx, v: &serde_json::Value) {
     let reg = reg::from_json(&v["registry"]);
     let noncf: BTreeSet<u32> = serde_json::from_value(v["noncf"].clone()).unwrap_or_default();
-    let c = DedupCase { reg: &reg, noncf: &noncf, inst_of: None, label: v["label"].as_str().unwrap_or("replay").to_string(), source: None };
+    let wrappers: BTreeSet<u32> = serde_json::from_value(v["wrappers"].clone()).unwrap_or_default();
+    let c = DedupCase { reg: &reg, noncf: &noncf, wrappers: &wrappers, inst_of: None, label: v["label"].as_str().unwrap_or("replay").to_string(), source: None };
     let nt = judge(ctx, &c);
     ctx.case(reg::fingerprint(&reg), nt);
 }
